@@ -124,7 +124,7 @@ fn generated_case(ctx: &Ctx, ch: &mut Ch) -> Outcome {
         let n = 1 + ch.pick(2);
         for _ in 0..n {
             if ch.chance(1, 4) {
-                if let Some(t) = mutate::swap_variable(&s, ch) {
+                if let Some(t) = mutate::swap_variable_with(&s, ch, true) {
                     s = t;
                     ctx.class("perturbation: a variable replaced by another one in scope");
                     continue;
